@@ -12,18 +12,29 @@ ID = 'C06'
 LEVEL = 'exploration'
 RULE = (
     'cases = one convert() call on a generated binned data array: layouts {all bins empty, some empty, one '
-    'huge bin, 1-d pixel grid, 2-d pixel x tof-bin grid, bins with gaps in the event buffer}, 0..5000 events, '
+    'huge bin, 1-d pixel grid, 2-d pixel x tof-bin grid, bins with gaps in the event buffer, and the non-compact '
+    'views scipp allows: transposed view of a 2-d grid, pixel / tof-bin slices not starting at bin 0, one pixel '
+    'sliced out (0-d / 1-d), bins stored in another order than the logical one}, 0..5000 events, '
     'event coordinate float32/float64/int64, targets wavelength/energy/dspacing/Q/energy_transfer '
-    '(direct+indirect) from tof and energy/dspacing/Q from wavelength, geometry as reduced coordinates or as '
-    'positions, with/without a dense bin-edge coordinate of the origin; the monitor on convert builds the dense '
-    'twin (event buffer flat, per-pixel geometry gathered per event) and re-runs the dense conversion; '
+    '(direct+indirect)/Q-vector/hkl from tof and energy/dspacing/Q from wavelength, geometry as reduced coordinates, '
+    'as positions or as beams, positions/beams in every axis-aligned frame (incident beam along +-x, +-y, +-z; sample '
+    'at the origin or elsewhere), with/without a dense bin-edge coordinate of the origin; the first 36 cases of every '
+    'shard sweep frame x placement x geometry-dependent target and non-compact layout x {direct, indirect, elastic}; '
+    'the monitor on convert builds the dense twin (event buffer flat, per-pixel geometry gathered per event), re-runs '
+    'the dense conversion, and evaluates the definitions in long double per event; '
     'distinct = (origin, target, layout, event dtype, geometry kind, edges, container) signatures'
 )
 ASSUMPTIONS = [
-    'the dense kernels themselves are decided by C01/C03/C05; here they are the reference',
+    'the dense kernels themselves are decided by C01/C03/C05; here they are the bit-for-bit reference, and the '
+    'long-double definitions (C01 closed forms, Euclidean geometry, C05 energy balance, Q = k_i - k_f) a second, '
+    'independent one at 1e-11 / 1e-5 (float32)',
     'elementwise IEEE operations: binned and dense paths must agree bit for bit',
 ]
-LAYOUTS = ['all_empty', 'some_empty', 'one_huge', '1d', '2d', 'gaps']
+LAYOUTS = ['all_empty', 'some_empty', 'one_huge', '1d', '2d', 'gaps',
+           # every other way scipp lets bins sit in the event buffer: views of a larger / differently ordered parent
+           'transposed', 'slice_pixels', 'slice_tof', 'one_pixel', 'permuted']
+# layouts whose begin/end indices are not the compact ones (bins in logical order, starting at 0, no unused events)
+NONCOMPACT = ['gaps', 'transposed', 'slice_pixels', 'slice_tof', 'one_pixel', 'permuted']
 HKL_TARGETS = ['Qx', 'Qz', 'Q_vec', 'hkl_vec', 'h', 'k', 'l']
 TARGETS = [('tof', 'hkl:'), ('wavelength', 'hkl:'), ('tof', 'wavelength'), ('tof', 'energy'), ('tof', 'dspacing'), ('tof', 'Q'),
            ('tof', 'energy_transfer:direct'), ('tof', 'energy_transfer:indirect'),
@@ -70,6 +81,108 @@ def gather(coord: sc.Variable, data: sc.Variable) -> sc.Variable:
 
 def is_edges(coord, data):
     return any(coord.sizes[d] == data.sizes[d] + 1 for d in coord.dims if d in data.dims)
+
+
+# ------------------------------------------------- independent definitions ---
+# Both dense twins run the package's own kernels: a defect that does not depend on binning (a wrong angle for one
+# orientation of the frame, a wrong constant) is shared by the twins.  The property speaks of "the value the dense
+# formula gives", so next to the twins every event is also compared with the definitions themselves, evaluated in
+# long double from the event coordinate and the pixel's geometry (rv.oracle.geom for beams, lengths and the angle
+# from positions; the closed forms of C01; C05's energy balance).  Tolerances as in C01: 1e-11 / 1e-5 (float32).
+TOL64, TOL32 = 1e-11, 1e-5
+SMALL_ANGLE = 1e-3      # rad; below, the float64 angle of the package is only good to ~eps/angle relative: not judged
+ELASTIC_DEF = {('tof', 'wavelength'), ('tof', 'energy'), ('tof', 'dspacing'), ('tof', 'Q'),
+               ('wavelength', 'energy'), ('wavelength', 'dspacing'), ('wavelength', 'Q')}
+QVEC_DEF = ('Qx', 'Qy', 'Qz', 'Q_vec')       # documented: Q = k_i - k_f = 2 pi / lambda (e_i - e_f), lab frame
+GEOM_DEF = ('two_theta', 'L1', 'L2', 'Ltotal', 'incident_beam', 'scattered_beam')
+
+
+class GeometryModel:
+    """L1, L2, Ltotal, two_theta, beams by their Euclidean definitions from whatever the data array carries.
+
+    ``fetch(name)`` returns the coordinate in SI as a long double array (per event or per pixel); a quantity that is
+    present as a coordinate is taken as given (that is the pixel's geometry), everything else is derived.
+    """
+
+    def __init__(self, d, scatter, fetch):
+        self.d, self.scatter, self.fetch = d, scatter, fetch
+        self.memo = {}
+        self.derived_angle = False
+        self.single = False
+
+    def has(self, name):
+        return name in self.d.coords and self.d.coords[name].bins is None
+
+    def get(self, name):
+        if name not in self.memo:
+            self.memo[name] = self._get(name)
+        return self.memo[name]
+
+    def _get(self, name):
+        from rv.oracle import geom
+        if self.has(name):
+            if self.d.coords[name].dtype == sc.DType.float32:
+                self.single = True
+            return self.fetch(name)
+        if name == 'incident_beam':
+            return self.get('sample_position') - self.get('source_position')
+        if name == 'scattered_beam':
+            return self.get('position') - self.get('sample_position')
+        if name == 'L1':
+            return geom.norm(self.get('incident_beam'))
+        if name == 'L2':
+            return geom.norm(self.get('scattered_beam'))
+        if name == 'two_theta':
+            self.derived_angle = True
+            return geom.angle(self.get('incident_beam'), self.get('scattered_beam'))
+        if name == 'Ltotal':
+            if self.scatter:
+                return self.get('L1') + self.get('L2')
+            return geom.norm(self.get('position') - self.get('source_position'))
+        raise KeyError(name)
+
+
+def _si_values(v):
+    from rv.oracle import si
+    return np.asarray(v.values).astype(si.LD) * si.factor(v.unit)
+
+
+def event_fetch(d):
+    def fetch(name):
+        return _si_values(gather(d.coords[name], d.data))
+    return fetch
+
+
+def pixel_fetch(d, dims, shape):
+    def fetch(name):
+        v = d.coords[name]
+        if not set(v.dims) <= set(dims):
+            raise KeyError(name)
+        return _si_values(sc.broadcast(v, dims=list(dims), shape=list(shape)) if v.ndim else v)
+    return fetch
+
+
+def elastic_definition(origin, target, x, gm):
+    """Expected event values in SI (long double) and the SI unit that carries their dimension."""
+    from rv.props.c01 import expected_si
+    if origin == 'tof':
+        lam = expected_si('wavelength_from_tof', {'tof': x, 'Ltotal': gm.get('Ltotal')})[0]
+    else:
+        lam = x
+    if target == 'wavelength':
+        return lam, 'm'
+    if target == 'energy':
+        if origin == 'tof':
+            return expected_si('energy_from_tof', {'tof': x, 'Ltotal': gm.get('Ltotal')})[0], 'J'
+        return expected_si('energy_from_wavelength', {'wavelength': x})[0], 'J'
+    if target == 'dspacing':
+        if origin == 'tof':
+            return expected_si('dspacing_from_tof', {'tof': x, 'Ltotal': gm.get('Ltotal'),
+                                                     'two_theta': gm.get('two_theta')})[0], 'm'
+        return expected_si('dspacing_from_wavelength', {'wavelength': x, 'two_theta': gm.get('two_theta')})[0], 'm'
+    if target == 'Q':
+        return expected_si('Q_from_wavelength', {'wavelength': lam, 'two_theta': gm.get('two_theta')})[0], '1/m'
+    raise KeyError(target)
 
 
 class Monitor:
@@ -146,6 +259,7 @@ class Monitor:
                         or not same_bits(np.asarray(pg.values), np.asarray(pw.values))):
                     ctx.violation('geometry_value', f'coordinate {target} of binned data differs from the one dense '
                                   'data with the same pixels gets', case, part='geometry')
+                self.geometry_definition(d, pg, target, scatter, case)
                 if origin not in out_tab.coords or fp(np.asarray(out_tab.coords[origin].values)[event_index(out.data)]) != \
                         fp(np.asarray(d.bins.constituents['data'].coords[origin].values)[event_index(d.data)]):
                     ctx.violation('coord_changed', f'event coordinate {origin!r} lost or changed by a geometry '
@@ -199,28 +313,17 @@ class Monitor:
                                first=[repr(gv[bad[0]]), repr(wv[bad[0]])] if bad.size else None)
                 ctx.violation('event_value', f'event {target} differs from the dense formula for the same event '
                               'and pixel', dict(case, **det), part='event_coord')
+            # ---- independent definitions (the twins evaluate the package's kernels and share whatever does not
+            # depend on binning)
+            if (origin, target) in ELASTIC_DEF:
+                self.event_definition(d, in_tab, idx, got, gv, origin, target, scatter, case)
+            elif target in QVEC_DEF:
+                self.qvec_definition(d, in_tab, idx, got, gv, origin, target, scatter, case)
             # ---- inelastic targets: NaN exactly for the unphysical events, decided by an independent t0
-            # (both twins evaluate the same kernel and share any branch that depends only on how dims nest)
-            if target == 'energy_transfer' and 'L1' in d.coords and 'L2' in d.coords:
-                from rv.oracle import si
-                m_n = si.constants()['m_n']
-                direct = 'incident_energy' in d.coords
-                E = d.coords['incident_energy' if direct else 'final_energy']
-                Lfix = d.coords['L1' if direct else 'L2']
-                t0 = (gather(Lfix, d.data).values.astype(si.LD) * si.factor(Lfix.unit)
-                      * np.sqrt(m_n / (2 * gather(E, d.data).values.astype(si.LD) * si.factor(E.unit))))
-                tofc = in_tab.coords[origin]
-                t = np.asarray(tofc.values)[idx].astype(si.LD) * si.factor(tofc.unit)
-                t0 = np.broadcast_to(t0, t.shape)
-                res_ev = np.asarray(out_tab.coords[target].values)[event_index(out.data)]
-                clear = np.abs(t - t0) > 1e-9 * t0
-                wrong = clear & (np.isnan(res_ev) != (t <= t0))
-                ctx.event('nan_rule')
-                ctx.count('nan_rule events decided', int(np.count_nonzero(clear)))
-                if np.any(wrong):
-                    i = int(np.argmax(wrong))
-                    ctx.violation('nan_rule', f'event energy_transfer is {res_ev[i]!r} for tof {float(t[i]):.6g} s with '
-                                  f't0 = {float(t0[i]):.6g} s (must be NaN exactly for tof <= t0)', case, part='nan_rule')
+            # (both twins evaluate the same kernel and share any branch that depends only on how dims nest),
+            # and the energy balance of C05 for the others
+            if target == 'energy_transfer':
+                self.inelastic_definition(d, in_tab, idx, got, gv, origin, scatter, case)
             # ---- second reference: the usual dense layout, one pixel at a time (event coordinate along its
             # own dimension, that pixel's geometry as scalars) -- a branch taken only when operand dims nest
             # behaves identically in the flat twin above, but not here
@@ -279,6 +382,192 @@ class Monitor:
                                       case, part='edges')
         except Exception:  # noqa: BLE001
             ctx.oracle_error('C06 monitor')
+
+
+    # ---------------------------------------------------------------- definitions
+    def tol_for(self, dtype, gm):
+        single = dtype == sc.DType.float32 or gm.single
+        return (TOL32 if single else TOL64), ('float32' if single else 'float64')
+
+    def event_definition(self, d, in_tab, idx, got, gv, origin, target, scatter, case):
+        ctx = self.ctx
+        from rv.oracle import si
+        try:
+            gm = GeometryModel(d, scatter, event_fetch(d))
+            xc = in_tab.coords[origin]
+            x = np.asarray(xc.values)[idx].astype(si.LD) * si.factor(xc.unit)
+            exp, si_unit = elastic_definition(origin, target, x, gm)
+            if si.dim(got.unit) != si.dim(sc.Unit(si_unit)):
+                ctx.violation('event_definition', f'event {target} has unit {got.unit}', case, part='definition-unit')
+                return
+            exp = np.broadcast_to(exp / si.factor(got.unit), x.shape)
+            tol, prec = self.tol_for(got.dtype, gm)
+            judged = np.ones(x.shape, dtype=bool)
+            if gm.derived_angle:
+                judged &= np.broadcast_to(gm.get('two_theta'), x.shape) >= SMALL_ANGLE
+                ctx.count('definition: events at angles below 1e-3 rad (not judged)', int(judged.size - judged.sum()))
+        except Exception:  # noqa: BLE001
+            ctx.oracle_error('C06 event definition')
+            return
+        ctx.event('definition')
+        ctx.count('definition events judged', int(judged.sum()))
+        if not judged.any():
+            return
+        g_, e_ = gv[judged], exp[judged]
+        err = np.asarray(si.relerr(g_, e_), dtype=np.float64)
+        err = np.where(np.isfinite(np.asarray(g_, dtype=np.float64)), err, np.inf)
+        worst = float(np.max(err))
+        ctx.dev(f'definition relerr {prec}: {target} from {origin}', worst)
+        if not worst <= tol:
+            i = int(np.argmax(err))
+            ctx.violation('event_definition', f'event {target} differs from the definition evaluated for that event and '
+                          f"its pixel's geometry: relative error {worst:.3g} > {tol:g}",
+                          dict(case, got=repr(g_[i]), expected=repr(float(e_[i])), n_differ=int(np.sum(err > tol))),
+                          part='definition', precision=prec)
+
+    def qvec_definition(self, d, in_tab, idx, got, gv, origin, target, scatter, case):
+        ctx = self.ctx
+        from rv.oracle import geom, si
+        from rv.props.c01 import expected_si
+        try:
+            gm = GeometryModel(d, scatter, event_fetch(d))
+            xc = in_tab.coords[origin]
+            x = np.asarray(xc.values)[idx].astype(si.LD) * si.factor(xc.unit)
+            lam = (expected_si('wavelength_from_tof', {'tof': x, 'Ltotal': gm.get('Ltotal')})[0]
+                   if origin == 'tof' else x)
+            bi, bf = gm.get('incident_beam'), gm.get('scattered_beam')
+            q = (2 * si.PI / np.broadcast_to(lam, x.shape))[:, None] * (
+                bi / geom.norm(bi)[..., None] - bf / geom.norm(bf)[..., None])
+            if si.dim(got.unit) != si.dim(sc.Unit('1/m')):
+                ctx.violation('event_definition', f'event {target} has unit {got.unit}', case, part='definition-unit')
+                return
+            gq = gv.astype(si.LD) * si.factor(got.unit)
+            qn = geom.norm(q)
+            if target == 'Q_vec':
+                err = geom.norm(gq - q) / qn
+            else:
+                err = np.abs(gq - q[:, 'xyz'.index(target[1])]) / qn
+            single = xc.dtype == sc.DType.float32 or gm.single
+            tol, prec = (TOL32, 'float32') if single else (TOL64, 'float64')
+            judged = np.broadcast_to(geom.angle(bi, bf), x.shape) >= SMALL_ANGLE
+            ctx.count('definition: events at angles below 1e-3 rad (not judged)', int(judged.size - judged.sum()))
+            err = np.asarray(err, dtype=np.float64)
+            err = np.where(np.isfinite(err), err, np.inf)[judged]
+        except Exception:  # noqa: BLE001
+            ctx.oracle_error('C06 Q-vector definition')
+            return
+        ctx.event('qvec_definition')
+        ctx.count('definition events judged', int(judged.sum()))
+        if not err.size:
+            return
+        worst = float(np.max(err))
+        ctx.dev(f'definition error / |Q| {prec}: {target} from {origin}', worst)
+        if not worst <= tol:
+            i = int(np.argmax(err))
+            ctx.violation('event_definition', f'event {target} differs from 2 pi / lambda (e_i - e_f) for that event and '
+                          f"its pixel's beams: error / |Q| = {worst:.3g} > {tol:g}",
+                          dict(case, got=repr(gv[judged][i]), expected=repr(np.asarray(q[judged][i] / si.factor(got.unit), dtype=np.float64))),
+                          part='qvec-definition', precision=prec)
+
+    def inelastic_definition(self, d, in_tab, idx, got, gv, origin, scatter, case):
+        ctx = self.ctx
+        from rv.oracle import si
+        try:
+            direct = 'incident_energy' in d.coords
+            gm = GeometryModel(d, scatter, event_fetch(d))
+            m_n = si.constants()['m_n']
+            E = gm.get('incident_energy' if direct else 'final_energy')
+            Lfix, Lfree = gm.get('L1' if direct else 'L2'), gm.get('L2' if direct else 'L1')
+            tofc = in_tab.coords[origin]
+            t = np.asarray(tofc.values)[idx].astype(si.LD) * si.factor(tofc.unit)
+            t0 = np.broadcast_to(Lfix * np.sqrt(m_n / (2 * E)), t.shape)
+            E, Lfree = np.broadcast_to(E, t.shape), np.broadcast_to(Lfree, t.shape)
+            clear = np.abs(t - t0) > 1e-9 * t0
+            unphysical = t <= t0
+        except Exception:  # noqa: BLE001
+            ctx.oracle_error('C06 inelastic definition')
+            return
+        wrong = clear & (np.isnan(gv) != unphysical)
+        ctx.event('nan_rule')
+        ctx.count('nan_rule events decided', int(np.count_nonzero(clear)))
+        if np.any(wrong):
+            i = int(np.argmax(wrong))
+            ctx.violation('nan_rule', f'event energy_transfer is {gv[i]!r} for tof {float(t[i]):.6g} s with '
+                          f't0 = {float(t0[i]):.6g} s (must be NaN exactly for tof <= t0)', case, part='nan_rule')
+            return
+        # energy balance: the free leg is flown in t - t0, so its energy is m L^2 / (2 (t - t0)^2); the result is
+        # Ei - Ef.  Forward bound of this definition: each term to tol, the free-leg term amplified by the
+        # cancellation in t - t0.
+        sel = clear & ~unphysical
+        if not np.any(sel):
+            return
+        try:
+            if si.dim(got.unit) != si.dim(sc.Unit('J')):
+                ctx.violation('event_definition', f'event energy_transfer has unit {got.unit}', case,
+                              part='definition-unit')
+                return
+            t_, t0_, E_, L_ = t[sel], t0[sel], E[sel], Lfree[sel]
+            Efree = m_n * L_ ** 2 / (2 * (t_ - t0_) ** 2)
+            exp = (E_ - Efree) if direct else (Efree - E_)
+            tol, prec = self.tol_for(got.dtype, gm)
+            bound = tol * (np.abs(E_) + np.abs(Efree) * (1 + 2 * t_ / np.abs(t_ - t0_)))
+            err = np.abs(gv[sel].astype(si.LD) * si.factor(got.unit) - exp)
+            ratio = np.asarray(err / bound, dtype=np.float64)
+            ratio = np.where(np.isfinite(gv[sel].astype(np.float64)), ratio, np.inf)
+        except Exception:  # noqa: BLE001
+            ctx.oracle_error('C06 inelastic definition')
+            return
+        ctx.event('inelastic_definition')
+        ctx.count('definition events judged', int(sel.sum()))
+        worst = float(np.max(ratio))
+        ctx.dev(f'inelastic definition, error / bound ({prec})', worst)
+        if not worst <= 1.0:
+            i = int(np.argmax(ratio))
+            ctx.violation('event_definition', 'event energy_transfer differs from the energy balance evaluated for that '
+                          f"event and its pixel's geometry: {worst:.3g} x the forward bound",
+                          dict(case, got=repr(gv[sel][i]), expected=repr(float(exp[i] / si.factor(got.unit))),
+                               tof_s=float(t_[i]), t0_s=float(t0_[i])),
+                          part='inelastic-definition', precision=prec)
+
+    def geometry_definition(self, d, pg, target, scatter, case):
+        ctx = self.ctx
+        from rv.oracle import si
+        if target not in GEOM_DEF or target in d.coords:
+            return
+        try:
+            gm = GeometryModel(d, scatter, pixel_fetch(d, pg.dims, pg.shape))
+            exp = gm.get(target)
+            vector = pg.dtype == sc.DType.vector3
+            want_dim = si.dim(sc.Unit('rad' if target == 'two_theta' else 'm'))
+            if si.dim(pg.unit) != want_dim:
+                ctx.violation('geometry_definition', f'coordinate {target} has unit {pg.unit}', case,
+                              part='definition-unit')
+                return
+            gotv = np.asarray(pg.values).astype(si.LD) * si.factor(pg.unit)
+            exp = np.broadcast_to(exp, gotv.shape)
+            tol = TOL32 if gm.single else TOL64
+            if vector:
+                from rv.oracle import geom
+                err = geom.norm(gotv - exp) / geom.norm(exp)
+            elif target == 'two_theta':
+                err = np.abs(gotv - exp)          # absolute, rad (C03: accurate to ~1e-15 rad absolute)
+            else:
+                err = np.abs(gotv - exp) / np.abs(exp)
+            err = np.asarray(err, dtype=np.float64)
+            err = np.where(np.isfinite(err), err, np.inf)
+        except Exception:  # noqa: BLE001
+            ctx.oracle_error('C06 geometry definition')
+            return
+        ctx.event('geometry_definition')
+        worst = float(np.max(err)) if err.size else 0.0
+        ctx.dev(f'geometry definition: {target}', worst)
+        if not worst <= tol:
+            at = np.unravel_index(int(np.argmax(err)), err.shape) if err.ndim else ()
+            ctx.violation('geometry_definition', f'coordinate {target} of binned data differs from its Euclidean '
+                          f'definition by {worst:.3g} > {tol:g}',
+                          dict(case, got=repr(np.asarray(pg.values)[at]),
+                               expected=repr(np.asarray(exp / si.factor(pg.unit), dtype=np.float64)[at])),
+                          part='geometry-definition')
 
 
 class GravityMonitor:
@@ -381,15 +670,39 @@ def gen_gravity(rng, ctx):
 
 
 # ------------------------------------------------------------ generator ---
-def gen(rng, ctx):
-    origin, tgt = TARGETS[rng.integers(0, len(TARGETS))]
+# Axis-aligned laboratory frames: the instrument is built with the incident beam along +z and the sample in the
+# origin, then turned by a proper rotation of the cube that sends e_z to the named direction (exact: signed
+# permutations of the components) and shifted so that the sample sits at the origin or elsewhere.
+_D = {
+    '+x': [[0, 0, 1], [0, 1, 0], [-1, 0, 0]], '-x': [[0, 0, -1], [0, 1, 0], [1, 0, 0]],
+    '+y': [[1, 0, 0], [0, 0, 1], [0, -1, 0]], '-y': [[1, 0, 0], [0, 0, -1], [0, 1, 0]],
+    '+z': [[1, 0, 0], [0, 1, 0], [0, 0, 1]], '-z': [[-1, 0, 0], [0, 1, 0], [0, 0, -1]],
+}
+_ROLL = [[[1, 0, 0], [0, 1, 0], [0, 0, 1]], [[0, -1, 0], [1, 0, 0], [0, 0, 1]],
+         [[-1, 0, 0], [0, -1, 0], [0, 0, 1]], [[0, 1, 0], [-1, 0, 0], [0, 0, 1]]]
+FRAMES = list(_D)
+PLACEMENTS = ['at the origin', 'elsewhere']
+
+
+def frame_matrix(direction, roll):
+    return np.array(_D[direction], dtype=np.float64) @ np.array(_ROLL[roll], dtype=np.float64)
+
+
+def frame_class(kind, direction, placement=None):
+    return (f'frame:{kind}, incident beam along {direction}'
+            + (f', sample {placement}' if placement is not None else ''))
+
+
+def gen(rng, ctx, force=None):
+    force = force or {}
+    origin, tgt = force.get('target') or TARGETS[rng.integers(0, len(TARGETS))]
     mode = None
     hkl = False
     if tgt == 'hkl:':
         tgt, hkl = HKL_TARGETS[rng.integers(0, len(HKL_TARGETS))], True
         ctx.hit('hkl-family target')
-    elif tgt == 'geom:':
-        tgt = GEOM_TARGETS[rng.integers(0, len(GEOM_TARGETS))]
+    elif tgt.startswith('geom:'):
+        tgt = tgt[5:] or GEOM_TARGETS[rng.integers(0, len(GEOM_TARGETS))]
         mode = 'geometry'
         if ':' in tgt:
             tgt, mode = tgt.split(':')[0], 'geometry-noscatter'
@@ -398,10 +711,16 @@ def gen(rng, ctx):
         tgt, mode = tgt.split(':')
     if mode and 'noscatter' in mode:
         ctx.hit('conversion without scattering on binned data')
-    layout = LAYOUTS[rng.integers(0, len(LAYOUTS))]
+    layout = force.get('layout') or LAYOUTS[rng.integers(0, len(LAYOUTS))]
     evdt = ['float64', 'float32', 'int64'][rng.integers(0, 3)] if origin == 'tof' else ['float64', 'float32'][rng.integers(0, 2)]
     npix = int(rng.integers(1, 9))
-    nt = int(rng.integers(1, 6)) if layout == '2d' else None
+    if layout in ('slice_pixels', 'one_pixel'):
+        npix = max(npix, 2)
+    grid = layout in ('2d', 'transposed', 'slice_tof') or (layout in ('slice_pixels', 'one_pixel', 'permuted')
+                                                           and rng.random() < 0.5)
+    nt = int(rng.integers(1, 6)) if grid else None
+    if layout == 'slice_tof':
+        nt = max(nt, 2)
     nbins = npix * (nt or 1)
     if layout == 'all_empty':
         sizes = np.zeros(nbins, dtype=np.int64)
@@ -412,10 +731,20 @@ def gen(rng, ctx):
         sizes = rng.integers(0, 40, size=nbins)
         if layout == 'some_empty':
             sizes[rng.random(nbins) < 0.5] = 0
-    gaps = rng.integers(0, 4, size=nbins) if layout == 'gaps' else np.zeros(nbins, dtype=np.int64)
-    begin = np.cumsum(sizes + gaps) - sizes
+        if force and sizes.sum() == 0:
+            sizes[rng.integers(0, nbins)] = 7      # a forced class is there to be judged: at least one event
+    # unused events before / between / after the bins: always for 'gaps', sometimes in the parent of a view
+    gapped = layout == 'gaps' or (layout in NONCOMPACT and rng.random() < 0.3)
+    gaps = rng.integers(0, 4, size=nbins) if gapped else np.zeros(nbins, dtype=np.int64)
+    if layout == 'permuted':
+        # the bins lie in the buffer in another order than the logical one
+        order = rng.permutation(nbins)
+        begin = np.empty(nbins, dtype=np.int64)
+        begin[order] = np.cumsum((sizes + gaps)[order]) - sizes[order]
+    else:
+        begin = np.cumsum(sizes + gaps) - sizes
     end = begin + sizes
-    nbuf = int((sizes + gaps).sum())
+    nbuf = int((sizes + gaps).sum()) + (int(rng.integers(0, 4)) if gapped else 0)
     if origin == 'tof':
         tunit = ['us', 'ns', 'ms'][rng.integers(0, 3)]
         scale = {'us': 1.0, 'ns': 1e3, 'ms': 1e-3}[tunit]
@@ -438,8 +767,14 @@ def gen(rng, ctx):
                      end=sc.array(dims=dims, values=end.reshape(shape), unit=None, dtype='int64'),
                      dim='event', data=tab)
     coords = {'unrelated_px': sc.array(dims=['pixel'], values=rng.random(npix), unit='K')}
-    geom_kind = 'positions' if hkl or (mode and mode.startswith('geometry')) else (
-        'reduced' if rng.random() < 0.6 else 'positions')
+    noscatter = bool(mode) and 'noscatter' in mode
+    geom_kind = force.get('geom')
+    if geom_kind is None:
+        if hkl or (mode and mode.startswith('geometry')):
+            geom_kind = 'positions' if noscatter or tgt in ('incident_beam', 'scattered_beam') or rng.random() < 0.7 else 'beams'
+        else:
+            u = rng.random()
+            geom_kind = 'reduced' if u < 0.5 else ('positions' if u < 0.85 or noscatter else 'beams')
     lunit = ['m', 'mm'][rng.integers(0, 2)]
     lf = 1.0 if lunit == 'm' else 1000.0
     if geom_kind == 'reduced':
@@ -448,9 +783,21 @@ def gen(rng, ctx):
         coords['Ltotal'] = coords['L1'] + coords['L2']
         coords['two_theta'] = sc.array(dims=['pixel'], values=rng.uniform(0.05, 3.0, size=npix), unit='rad')
     else:
-        coords['source_position'] = sc.vector([0, 0, -rng.uniform(5, 50) * lf], unit=lunit)
-        coords['sample_position'] = sc.vector([0, 0, 0.0], unit=lunit)
-        coords['position'] = sc.vectors(dims=['pixel'], values=rng.normal(size=(npix, 3)) * lf * 2 + [0, 0.3 * lf, lf], unit=lunit)
+        direction = force.get('frame') or FRAMES[rng.integers(0, len(FRAMES))]
+        R = frame_matrix(direction, int(rng.integers(0, 4)))
+        l1 = rng.uniform(5, 50) * lf
+        pix = (rng.normal(size=(npix, 3)) * lf * 2 + [0, 0.3 * lf, lf]) @ R.T
+        if geom_kind == 'positions':
+            placement = force.get('placement') or PLACEMENTS[rng.integers(0, 2)]
+            off = np.zeros(3) if placement == 'at the origin' else rng.uniform(-20.0, 20.0, size=3) * lf
+            coords['source_position'] = sc.vector(off + R @ np.array([0.0, 0.0, -l1]), unit=lunit)
+            coords['sample_position'] = sc.vector(off, unit=lunit)
+            coords['position'] = sc.vectors(dims=['pixel'], values=off + pix, unit=lunit)
+            ctx.hit(frame_class('positions', direction, placement))
+        else:
+            coords['incident_beam'] = sc.vector(R @ np.array([0.0, 0.0, l1]), unit=lunit)
+            coords['scattered_beam'] = sc.vectors(dims=['pixel'], values=pix, unit=lunit)
+            ctx.hit(frame_class('beams', direction))
     if hkl:
         th = rng.uniform(0, np.pi)
         coords['sample_rotation'] = sc.spatial.rotation(value=[0.0, np.sin(th / 2), 0.0, np.cos(th / 2)])
@@ -473,13 +820,55 @@ def gen(rng, ctx):
         lo, hi = (float(np.min(vals)), float(np.max(vals))) if nbuf else (1.0, 2.0)
         ev = np.sort(rng.uniform(lo * 0.9, hi * 1.1 + 1, size=nt + 1))
         coords[origin] = sc.array(dims=[origin], values=ev, unit=ounit)
-    elif nt:
-        pass
     masks = {'pxmask': sc.array(dims=['pixel'], values=rng.random(npix) < 0.3)}
     da = sc.DataArray(binned, coords=coords, masks=masks)
-    sig = (origin, tgt, mode, layout, evdt, geom_kind, 'edges' if edges else 'noedges', ounit, lunit)
-    return da, origin, tgt, sig, {'layout': layout, 'nevents': int(sizes.sum()), 'geometry': geom_kind,
+    # ---- views (no copy): what the user gets from transposing / slicing a larger object
+    if layout == 'transposed':
+        da = da.transpose()
+    elif layout == 'slice_pixels':
+        da = da['pixel', int(rng.integers(1, npix)):]
+    elif layout == 'slice_tof':
+        da = da[origin, int(rng.integers(1, nt)):]
+    elif layout == 'one_pixel':
+        da = da['pixel', int(rng.integers(1, npix))]
+    nevents = int(da.bins.size().data.sum().value) if layout in NONCOMPACT else int(sizes.sum())
+    shape_class = f'{da.data.ndim}-d'
+    sig = (origin, tgt, mode, layout, evdt, geom_kind, 'edges' if edges else 'noedges', ounit, lunit, shape_class)
+    return da, origin, tgt, sig, {'layout': layout, 'nevents': nevents, 'geometry': geom_kind,
                                   'mode': mode, 'edges': edges}
+
+
+# ------------------------------------------------- forced part of every shard ---
+# (a) every axis-aligned frame x sample placement, geometry by positions and by beams, on the targets that depend on
+#     the pixel geometry; the target rotates with the shard index so that every (frame, target) pair occurs in every run
+FRAME_TARGETS = [('tof', 'dspacing'), ('tof', 'Q'), ('wavelength', 'dspacing'), ('wavelength', 'Q'),
+                 ('tof', 'geom:two_theta'), ('tof', 'wavelength'), ('tof', 'energy_transfer:direct'),
+                 ('tof', 'energy_transfer:indirect')]
+# (b) every non-compact layout x inelastic targets (both geometries) and one elastic target
+NONCOMPACT_TARGETS = [('tof', 'energy_transfer:direct'), ('tof', 'energy_transfer:indirect'), None]
+ELASTIC_ROT = [('tof', 'dspacing'), ('tof', 'wavelength'), ('wavelength', 'Q'), ('tof', 'energy'),
+               ('wavelength', 'energy'), ('tof', 'Q'), ('wavelength', 'dspacing'), ('tof', 'hkl:')]
+
+
+def target_label(t):
+    return t[1] if t[0] == 'tof' else f'{t[1]} from {t[0]}'
+
+
+def forced_cases(index):
+    out = []
+    k = 0
+    for direction in FRAMES:
+        for kind, placement in (('positions', PLACEMENTS[0]), ('positions', PLACEMENTS[1]), ('beams', None)):
+            t = FRAME_TARGETS[(k + index) % len(FRAME_TARGETS)]
+            out.append({'target': t, 'geom': kind, 'frame': direction, 'placement': placement,
+                        'layout': ['1d', 'some_empty', '2d'][(k + index) % 3]})
+            k += 1
+    for j, layout in enumerate(NONCOMPACT):
+        for t in NONCOMPACT_TARGETS:
+            tt = t or ELASTIC_ROT[(j + index) % len(ELASTIC_ROT)]
+            out.append({'target': tt, 'layout': layout,
+                        'hit': f'layout:{layout} x ' + (t[1] if t else 'elastic target')})
+    return out
 
 
 def plan(tier, seed):
@@ -489,13 +878,19 @@ def plan(tier, seed):
 
 def requirements(tier):
     return {'events': {'convert(binned)': 200, 'twin': 200, 'edges': 10, 'gravity_twin': 50, 'pixel_twin': 500, 'nan_rule': 10,
-                       'geometry_twin': 20},
+                       'geometry_twin': 20, 'definition': 200, 'inelastic_definition': 50, 'geometry_definition': 20,
+                       'qvec_definition': 20},
             'forced': ['layout:' + x for x in LAYOUTS] + ['evdtype:float32', 'evdtype:int64', 'mode:direct', 'mode:indirect']
             + ['gravity wavelength unit:' + u for u in ('angstrom', 'nm', 'm')]
             + ['binned gravity with per-pixel incident beams', 'hkl-family target',
                'elastic target with bystander energy coordinates', 'elastic target with bystander energy coordinates (both)',
-               'geometry target on binned data', 'conversion without scattering on binned data'],
-            'counters': {'events_compared': 10000}}
+               'geometry target on binned data', 'conversion without scattering on binned data']
+            + [frame_class('positions', f, p) for f in FRAMES for p in PLACEMENTS]
+            + [frame_class('beams', f) for f in FRAMES]
+            + ['frame sweep target:' + target_label(t) for t in FRAME_TARGETS]
+            + [f'layout:{x} x {t}' for x in NONCOMPACT
+               for t in ('energy_transfer:direct', 'energy_transfer:indirect', 'elastic target')],
+            'counters': {'events_compared': 10000, 'definition events judged': 10000}}
 
 
 def run(shard, ctx):
@@ -522,8 +917,12 @@ def run(shard, ctx):
                 except Exception:  # noqa: BLE001  judged by the monitor
                     pass
                 ctx.case((nm, *sig))
+        forced = forced_cases(shard['index'])
         for i in range(shard['cases']):
-            da, origin, tgt, sig, meta = gen(rng, ctx)
+            force = forced[i] if i < len(forced) else None
+            da, origin, tgt, sig, meta = gen(rng, ctx, force)
+            if force:
+                ctx.hit(force['hit'] if 'hit' in force else 'frame sweep target:' + target_label(force['target']))
             mon.meta = meta
             scatter = not (meta['mode'] and 'noscatter' in meta['mode'])
             ctx.hit('layout:' + meta['layout'])
@@ -542,14 +941,20 @@ def run(shard, ctx):
 
 TECHNIQUE = ('runtime monitors (sys.monitoring) on convert() and on the gravity kernels for binned data: before/after '
              'fingerprints of the binned input and its parts; differential against the dense conversion of the flat '
-             'per-event twin and of each pixel on its own, bit for bit; independent NaN rule for inelastic targets')
+             'per-event twin and of each pixel on its own, bit for bit; independent long-double definitions per event '
+             '(elastic closed forms with L1/L2/two_theta from positions or beams, energy balance and NaN rule for '
+             'inelastic targets, Q vector, geometry targets)')
 LEVEL_TEXT = ('exploration: for every observed convert() call on binned data the monitor rebuilds two dense twins '
               '(flat event buffer with pixel geometry gathered per event; each pixel alone with scalar geometry) and '
               'requires the event coordinate of the result to equal the dense result bit for bit, the bin-edge '
               'coordinate to equal the dense conversion of the edges, NaN exactly for tof <= an independently computed '
-              't0 (inelastic targets), and weights, variances, event order, bin membership, masks, unrelated coordinates '
+              't0 (inelastic targets), every event value (wavelength, energy, dspacing, Q, Q-vector components, energy '
+              'transfer) and every geometry coordinate to equal its definition evaluated in long double from the event '
+              "coordinate and the pixel's positions / beams / reduced geometry (1e-11, float32 1e-5; energy transfer "
+              'within the forward bound of its definition; angles below 1e-3 rad not judged), and weights, variances, event order, bin membership, masks, unrelated coordinates '
               'and the input object to be unchanged (fingerprints). The gravity kernels with binned wavelength are '
               'judged the same way (4 eps when beams vary per pixel). Sampled layouts, not a proof.')
-LEVEL_NOTE = ('trusted: the dense kernels (decided by C01/C03/C05), scipp binned containers, elementwise IEEE '
-              'arithmetic being identical in binned and dense evaluation')
+LEVEL_NOTE = ('trusted: the dense kernels for the bit-for-bit comparison (decided by C01/C03/C05), scipp binned '
+              'containers, elementwise IEEE arithmetic being identical in binned and dense evaluation; numpy long double '
+              'and rv.oracle.{si,geom} for the definitions')
 DESIGN_REF = 'DESIGN.md section 4, C06'
